@@ -500,6 +500,15 @@ def gen_pipeline(rng: Random, tag: str = "", n_items: tuple[int, int] = (1, 4), 
         dep.pop("rule_cond_op", None)
         dep.pop("rule_cond_not", None)
         spec["transformations"].append(dep)
+    if chance(rng, 0.2):
+        # a field-name level item that depends on pipeline state which only some rules set: the answer for one
+        # and the same field name differs from rule to rule
+        spec["transformations"].append({"type": "set_state", "key": "fnstate", "val": "on",
+                                        "rule_conditions": [{"type": "logsource", "product": pick(rng, PRODUCTS)}]})
+        dep = ({"type": "field_name_prefix", "prefix": "st."} if chance(rng, 0.5)
+               else {"type": "field_name_suffix", "suffix": ".st"})
+        dep["field_name_conditions"] = [{"type": "processing_state", "key": "fnstate", "val": "on"}]
+        spec["transformations"].append(dep)
     if chance(rng, post):
         spec["postprocessing"] = [gen_postprocessing(rng, tag + str(i)) for i in range(rng.randint(1, 2))]
     if chance(rng, final):
